@@ -33,7 +33,7 @@ def snapshot(arrays):
             for a in arrays]
 
 
-def build(M, column_scalars=False, foreign_byte_order=False):
+def build(M, column_scalars=False, foreign_byte_order=False, marker=None):
     """MeshFields plus the list of every numpy array handed to the library (column_scalars: scalar fields stored as (n, 1)
     arrays, as some writers hand them out, instead of (n,))"""
     from fieldcompare.mesh import Mesh, MeshFields, CellType
@@ -55,6 +55,10 @@ def build(M, column_scalars=False, foreign_byte_order=False):
             # data that came from a machine / file of the other endianness: same values, bytes stored the other way round
             pd[name] = pd[name].astype(pd[name].dtype.newbyteorder("S"))
         arrays.append(pd[name])
+    if marker is not None:
+        # a single-precision field holding a "no data" marker of huge magnitude (its difference to the other side's marker overflows)
+        pd["nodata"] = np.full(len(M["pts"]), marker, dtype=np.float32)
+        arrays.append(pd["nodata"])
     cd = {}
     for name, per in M["cf"].items():
         cd[name] = [G.to_numpy_rows(per[t]) for t, _ in M["blocks"]]
@@ -93,8 +97,9 @@ def run_history(ctx, rng, idx):
         M = G.reorder_points(M, sorted(range(n_), key=lambda i: (M["pts"][i][0], -M["pts"][i][1] if M["dim"] > 1 else 0)))
     cols = rng.choice(["none", "none", "source", "reference"])     # one side stores its scalar fields as (n, 1) columns
     foreign = rng.choice(["none", "none", "none", "source", "reference"])   # one side's point fields in non-native byte order
-    a, arrs_a = build(M, column_scalars=cols == "source", foreign_byte_order=foreign == "source")
-    b, arrs_b = build(N, column_scalars=cols == "reference", foreign_byte_order=foreign == "reference")
+    markers = rng.random() < 0.2        # opposite huge markers on the two sides (only where the verdict is 'failed' anyway)
+    a, arrs_a = build(M, column_scalars=cols == "source", foreign_byte_order=foreign == "source", marker=3.0e38 if markers else None)
+    b, arrs_b = build(N, column_scalars=cols == "reference", foreign_byte_order=foreign == "reference", marker=-3.0e38 if markers else None)
     arrays = arrs_a + arrs_b
     # tolerances set by the user on one of the meshes: part of the caller's data, like the arrays
     user_tol = rng.random() < 0.3
@@ -111,7 +116,7 @@ def run_history(ctx, rng, idx):
     canon = {"source": json.loads(json.dumps({k: v for k, v in M.items() if k != "_orph"}, default=str)),
              "reference": json.loads(json.dumps({k: v for k, v in N.items() if k != "_orph"}, default=str)), "ops": ops, "kind": kind,
              "inputs_write_protected": readonly, "scalar_fields_as_columns": cols, "point_fields_in_foreign_byte_order": foreign,
-             "user_tolerances_on_source_mesh": user_tol}
+             "user_tolerances_on_source_mesh": user_tol, "opposite_huge_markers": markers}
     work = os.path.join(str(ctx.workdir), f"h{idx}")
     os.makedirs(work)
     comparator = MeshFieldsComparator(a, b)
@@ -122,6 +127,7 @@ def run_history(ctx, rng, idx):
         for op in ops:
             before = snapshot(arrays)
             tol_before = tolerances()
+            err_before = dict(np.geterr())
             listing_before = sorted(os.listdir(work))
             expect_new = []
             with warnings.catch_warnings():
@@ -275,6 +281,22 @@ def run_history(ctx, rng, idx):
                         meshio_utils.to_meshio(f)
                         if not (np.array_equal(p1, im.points) and np.array_equal(c1, im.connectivity(CellTypes.pixel))):
                             ctx.violation("E4", "points/connectivity of a structured mesh change after use", canon, executed=executed + [op])
+                        # reading a ROTATED image grid in between does not turn other image grids: one made before (its points not
+                        # asked for yet) and one made afterwards still lie along the coordinate axes
+                        from . import vtkenc as V_
+                        from fieldcompare.io import read_field_data as _read
+                        early = ImageMesh((2, 1, 0), (0.0, 0.0, 0.0), (1.0, 2.0, 1.0))
+                        rot = os.path.join(work, "rotated.vti")
+                        if not os.path.exists(rot):
+                            V_.write_vti(rot, [0, 2, 0, 1, 0, 0], [0.0, 0.0, 0.0], [1.0, 2.0, 1.0], [0.0, -1.0, 0.0, 1.0, 0.0, 0.0, 0.0, 0.0, 1.0],
+                                         [("p", "Float64", 1, [float(i) for i in range(6)])], None, V_.Cfg("ascii"))
+                            expect_new = expect_new + ["rotated.vti"]
+                        np.asarray(_read(rot).domain.points)
+                        late = ImageMesh((2, 1, 0), (0.0, 0.0, 0.0), (1.0, 2.0, 1.0))
+                        lattice = np.array([[float(i), 2.0 * j, 0.0] for j in range(2) for i in range(3)])
+                        if not (np.array_equal(np.asarray(early.points), lattice) and np.array_equal(np.asarray(late.points), lattice)):
+                            ctx.violation("E4", "after a rotated .vti was read, image grids without a direction matrix are rotated as well "
+                                                "(state shared between data sets)", canon, executed=executed + [op])
                         # curvilinear and rectilinear grids (2-d and 3-d): what the accessors hand out is the same on every
                         # access, also after conversions and comparisons in between
                         from fieldcompare.mesh import StructuredMesh, RectilinearMesh
@@ -309,6 +331,10 @@ def run_history(ctx, rng, idx):
                         ctx.violation("E4", f"operation {op} raised {type(e).__name__}: {e}", canon, executed=executed + [op])
             executed.append(op)
             after = snapshot(arrays)
+            if dict(np.geterr()) != err_before:
+                ctx.violation("E4", f"operation '{op}' left numpy's floating-point error handling changed ({err_before} -> {dict(np.geterr())}): "
+                                    "later comparisons in the same process behave differently", canon, executed=executed, op=op)
+                np.seterr(**err_before)
             if tolerances() != tol_before:
                 ctx.violation("E4", f"operation '{op}' changed the tolerances of a mesh it was given ({tol_before} -> {tolerances()})",
                               canon, executed=executed, op=op)
